@@ -669,6 +669,7 @@ func genLifecycle(p *pkgInfo) (string, error) {
 		{"recover_calls", "recoverFromPanic"},
 		{"kill_calls", "Kill"},
 		{"init_terminal_calls", "initTerminal"},
+		{"disable_mouse_calls", "disableMouse"},
 	} {
 		calls := g.callsOf(m[1], false)
 		what := m[1]
